@@ -64,6 +64,14 @@ func c19Scenarios(thorough bool) []*schedScenario {
 		scs = append(scs, &schedScenario{Name: "assignip-free-" + ip + "-vs-assign", Cfg: c19Cfg(false), Setup: []vOp{auto("n1", "h0")},
 			Threads: [][]vOp{{{Kind: "assignip", Host: "n1", Handle: "h2", IP: ip}}, {auto("n1", "h3"), auto("n1", "h4")}}})
 	}
+	// cooldown > 0 with an address of the block cooling down, while a client allocates WITHOUT handle
+	// and WITHOUT attributes (its allocation must get its own attribute entry, not the shared
+	// "released at ..." one) next to an ordinary client
+	cool := c19Cfg(false)
+	cool.Config = &model.IPAMConfig{AutoAllocateBlocks: true, IPCooldownSeconds: 600}
+	scs = append(scs, &schedScenario{Name: "cooldown-bare-assign-vs-assign", Cfg: cool,
+		Setup:   []vOp{auto("n1", "h0"), {Kind: "rbh", Handle: "h0"}},
+		Threads: [][]vOp{{{Kind: "auto", Host: "n1", NoAttrs: true}}, {auto("n1", "h2")}}})
 	// one handle used by two hosts under a per-handle allocation limit (the CNI plugin's idempotent
 	// ADD): the loser of the handle race retries from its in-memory block and must not persist the
 	// allocation of its failed attempt; a third client makes the winner lose its block write.
